@@ -252,6 +252,7 @@ var bads = []bad{
 	{"signers-nil", true, hasSigners, func(fn string, p *params) { p.signers = nil }},
 	{"msg-nil", true, hasMsg, func(fn string, p *params) { p.msg = nil }},
 	{"msg-empty", true, hasMsg, func(fn string, p *params) { p.msg = []byte{} }},
+	{"msg-empty-of-buffer", true, hasMsg, func(fn string, p *params) { p.msg = make([]byte, 32)[:0] }},
 	{"config-nil", false, hasConfig, func(fn string, p *params) { p.cmp, p.frost, p.tap, p.dR, p.dS = nil, nil, nil, nil, nil }},
 	{"config-zero-value", false, hasConfig, func(fn string, p *params) {
 		if p.cmp != nil {
@@ -447,6 +448,15 @@ func run(c Case) *pbt.Fail {
 	}
 	// accepted: it must then really be a valid run, together with honest peers given the same session-wide parameters
 	lastOutcome = "accepted"
+	for _, b := range c.Bads {
+		// an empty message is invalid by the statement itself, whatever the protocol would make of it (the only start
+		// function for which "no message" is a documented mode is the internal presign entry, where it selects the
+		// offline protocol)
+		if (b == "msg-nil" || b == "msg-empty" || b == "msg-empty-of-buffer") && fn != "cmp.PresignFull" {
+			lastOutcome = "accepted-empty-message"
+			return pbt.Failf("accepted-empty-message:"+fn+":"+b, "the start function accepts an empty message ("+b+") instead of returning an error")
+		}
+	}
 	for _, id := range parties[1:] {
 		q := baseline(peerFn(fn), id)
 		for _, b := range c.Bads {
